@@ -34,9 +34,10 @@ BAND = 1e-12
 META = {
     'rule': ('cases = (a) dyadic/integer curves (n 3..40; small-integer, plateau, dyadic k/8, corner-shaped and '
              'near-vertical y profiles over integer / dyadic x gaps) and (b) the 12 generic curve families '
-             '(n 2..60), each x {C,F,view,int64} layout x an ascending numpy int knee list drawn from 0..n-1 '
-             '(index 0 and n-1 forced in ~35 % each; empty, single and all-index lists included) x 4 thresholds '
-             '(a realised IoU value or its float neighbour, one of {0,1,.33,.5,.3}, U(0,1)); every case drives '
+             '(n 2..60; thorough adds n 80..600), each x {C,F,view,int64} layout x an ascending numpy int knee list '
+             'drawn from 0..n-1 (index 0 and n-1 forced in ~35 % each; empty, single and all-index lists included) '
+             'x 4 thresholds in [0,1] (a realised IoU value, its float neighbour or U(0,1), one of '
+             '{0,1,.33,.5,.3,.0625}, U(0,1)^2); every case drives '
              'filter_worst_knees once and filter_corner_knees + select_corner_knees per threshold, 20 % also '
              'add_points_even_knees (internal call path); distinct = digest(curve, knees, function, t); '
              'non-trivial = the call dropped >= 1 knee and kept >= 1 knee'),
